@@ -32,6 +32,9 @@ def cases(tier):
         step = 64
         for i in range(0, len(seqs), step):
             yield {"n": n, "seqs": seqs[i:i + step], "tier": tier}
+    # a few long strands (node keys beyond the small numbers: 255..258 residues, 300, 1000)
+    for n in (255, 256, 257, 258, 300) + ((1000,) if tier == "thorough" else ()):
+        yield {"n": n, "seqs": [("ACGTTGCA" * (n // 8 + 1))[:n], ("GGATC" * (n // 5 + 1))[:n]], "tier": tier}
     yield {"prog": True, "tier": tier}
 
 
